@@ -404,7 +404,9 @@ theorem transfer_sim (m : OvMode) (s : Transfer.State) (o : Transfer.Op) (op : O
   | advance f =>
     cases hop
     have hp : s.poisoned = false := hok
-    simp [Transfer.step, hp, applyOp, absT]
+    have hk : Gen.transferFacts.advanceKeepsCancel = true := by decide
+    have hd : Gen.transferFacts.advanceDropsPending = true := by decide
+    simp [Transfer.step, hp, applyOp, absT, hk, hd]
   | requestResume p f off =>
     cases hop
     obtain ⟨hp, hcov⟩ := hok
@@ -417,9 +419,16 @@ theorem transfer_sim (m : OvMode) (s : Transfer.State) (o : Transfer.Op) (op : O
         cases hr : ringCovers (absT s).ring off with
         | false => simp [absT, hc, hf] at hr ⊢
         | true =>
+          have hrc : Gen.transferFacts.resumeCap = true := by decide
           by_cases ha : s.acked < off ∧ off ≤ s.sent
-          · simp [absT, hc, hf, ha] at hr ⊢
-          · simp [absT, hc, hf, ha] at hr ⊢
+          · have hb : Transfer.resumeBumps Gen.transferFacts off s.acked s.sent = true := by
+              simp [Transfer.resumeBumps, hrc, ha.1, ha.2]
+            simp [absT, hc, hf, ha, hb] at hr ⊢
+          · have hb : Transfer.resumeBumps Gen.transferFacts off s.acked s.sent = false := by
+              simp only [Transfer.resumeBumps, hrc, Bool.not_true, Bool.false_or, Bool.and_eq_false_imp,
+                decide_eq_true_eq, decide_eq_false_iff_not]
+              intro h1; exact fun h2 => ha ⟨h1, h2⟩
+            simp [absT, hc, hf, ha, hb] at hr ⊢
       · simp [absT, hc, hf]
   | pushReplay off dlen last body =>
     cases hop
